@@ -5,7 +5,13 @@ from props import _slice_common as sc
 
 PROPERTY = "C03"
 LEAN_MODULE = "CrCube.Props.C03"
-THEOREMS = []
+THEOREMS = [
+    "CrCube.C03.prop_spec",
+    "CrCube.C03.prop_range",
+    "CrCube.C03.prop_nan_iff",
+    "CrCube.C03.pct_def",
+    "CrCube.C03.row_props_sum_one",
+]
 RULE = ("random designs x surveys as in C01/C02 incl. empty rows/columns (zero bases) and all-zero tables; every proportion, "
         "percentage and margin-proportion output of every partition compared with count/base of the respondent-level spec, "
         "range [0,1], NaN iff base = 0, x100, and sum-to-one along categorical dimensions checked on the implementation's "
